@@ -325,6 +325,20 @@ def clause4_pong(ctx, P):
         def ping(atom, pol):
             return atom[0] == "switch" and atom[2] == 9
         ctx.ob("C12.4 R-GATE", hf, "pong-only-for-ping", Q.must_pass(P, hf, cs[0].block, ping), "pong sent for an opcode other than ping")
+        # a pong that could not be sent ends the connection: going on would leave a ping unanswered on a live connection
+        WS_ERROR, WS_CLOSED = Q.enum(P, "WS_ERROR"), Q.enum(P, "WS_CLOSED")
+        bad = None
+        nfail = 0
+        for v in Q.path_views(ctx, P, hf):
+            failed = v.has_atom(lambda a, p: a[0] == "cmp" and Q.is_call_to(a[2], "websocket_send_pong_frame") and a[3] == ("const", 0) and
+                                ((a[1] == "slt" and p) or (a[1] == "sge" and not p)))
+            if failed:
+                nfail += 1
+                if v.ret_const() not in (WS_ERROR, WS_CLOSED):
+                    bad = v
+        ctx.ob("C12.4 R-RET", hf, "unsendable-pong-ends-the-connection", bad is None and nfail > 0,
+               "when the pong cannot be sent the frame handler goes on (verdict %s): the ping stays unanswered on a connection that is "
+               "kept in service" % (bad.ret_const() if bad else "?"), witness=bad.witness() if bad else None)
 
 
 def clause5_handshake(ctx, P, cg):
@@ -502,6 +516,57 @@ def clause6_transparency(ctx, P, cg):
     ctx.floor("C12.6 R-SIB", 5)
 
 
+def _bf_store_name(P, f, i):
+    """name of the bit-field member of websocket.ws_flags that the store i rewrites (read-modify-write of the storage unit)"""
+    t = P.term(f, i.a[1])
+    if not (t[0] == "field" and t[2] == "struct.websocket" and t[3] == "ws_flags"):
+        return None
+    v = P.term(f, i.a[0])
+    inner = v[2][0] if v[0] == "op" and v[1] == "or" else v
+    if inner[0] == "op" and inner[1] == "and" and inner[2][0] == ("load", t) and inner[2][1][0] == "const":
+        cleared = ~inner[2][1][1] & 0xffff
+        if cleared:
+            shift = (cleared & -cleared).bit_length() - 1
+            width = bin(cleared).count("1")
+            return P.bitfield_name("struct.websocket", "ws_flags", shift, (1 << width) - 1)
+    return None
+
+
+def clause8_frame_flags(ctx, P, cg):
+    """the flags of a frame header (fin, rsv, opcode, mask) are rewritten for EVERY frame: a flag that is only ever set
+    keeps the value of an earlier frame (e.g. 'masked'), and the checks on it stop working from the second frame on"""
+    BS_CLOSED = Q.enum(P, "BS_CLOSED")
+    writers = {}
+    for f in P.own_functions():
+        if f.base != "websocket.c":
+            continue
+        for i in f.all_insts():
+            if i.op == "store":
+                nm = _bf_store_name(P, f, i)
+                if nm:
+                    writers.setdefault(nm, set()).add(f.name)
+    for nm in ("fin", "rsv", "opcode", "mask"):
+        fs = writers.get(nm, set())
+        good = None
+        why = "no function stores it"
+        for fname in sorted(fs):
+            f = P.functions[fname]
+            if f.srcname == "websocket_init":
+                continue
+            missing = None
+            for v in Q.path_views(ctx, P, f):
+                if v.ret_const() == BS_CLOSED or any(True for _ in v.calls("handle_error")):
+                    continue
+                if not any(i.op == "store" and _bf_store_name(P, f, i) == nm for _, i in v.insts()):
+                    missing = v
+            if missing is None:
+                good = f
+            else:
+                why = "%s has a continuing path that leaves it as it was" % f.srcname
+        ctx.ob("C12.2 R-INIT", P.fn("websocket.c:ws_get_header"), "frame-flag-rewritten-per-frame:" + nm, good is not None,
+               "frame header flag '%s' is not rewritten for every frame (%s): the value of an earlier frame is used" % (nm, why))
+
+
 def run(ctx):
     for cfg in ctx.configs(["default"] if ctx.tier == "quick" else None):
         P, cg = cfg.P, cfg.cg
@@ -513,3 +578,4 @@ def run(ctx):
         clause6_transparency(ctx, P, cg)
         clause7_scanners(ctx, P)
         clause8_status_codes(ctx, P)
+        clause8_frame_flags(ctx, P, cg)
